@@ -30,12 +30,16 @@ func cmdMITClient(args []string) error {
 	out := fs.String("out", "trace.ndjson", "trace file")
 	ref := fs.String("mitref", "", "path of the mitref binary")
 	dir := fs.String("dir", ".", "scratch directory for krb5.conf")
+	casesF := fs.String("cases", "", "perturbation cases from GenC09: MIT's client is given perturbed replies instead (trace for TraceMITReply)")
 	fs.Parse(args)
 	tw, err := newTrace(*out)
 	if err != nil {
 		return err
 	}
 	defer tw.close()
+	if *casesF != "" {
+		return mitClientPerturbed(tw, *ref, *dir, *casesF)
+	}
 	service.GetReplayCache(24 * time.Hour)
 	origin := time.Now().Truncate(time.Second)
 	realm, far := "MIT.TEST.GOKRB5", "FAR.MIT.TEST.GOKRB5"
@@ -123,6 +127,102 @@ func cmdMITClient(args []string) error {
 				k.close()
 			}
 		}
+	}
+	return nil
+}
+
+// mitClientPerturbed: MIT's client against the simulated KDC whose AS or TGS reply carries one perturbation of GenC09's catalogue.
+// One line per (case, kind): how far MIT's client got (7: it accepted the reply and went on to build an AP-REQ).
+func mitClientPerturbed(tw *traceWriter, ref, dir, casesF string) error {
+	var cases []c09Case
+	if err := readNDJSONRaw(casesF, func(b []byte) error {
+		var c c09Case
+		if err := json.Unmarshal(b, &c); err != nil {
+			return err
+		}
+		if len(c.Devs) <= 1 {
+			cases = append(cases, c)
+		}
+		return nil
+	}); err != nil {
+		return err
+	}
+	origin := time.Now().Truncate(time.Second)
+	realm := "MITR.TEST.GOKRB5"
+	allEt := []int32{18, 17, 23, 16, 19, 20}
+	n := 0
+	for _, et := range []int32{18, 23} {
+		k := newSimKDC(origin)
+		spn := "HTTP/svc.mitr.test"
+		for _, p := range []struct{ n, pw string }{{"krbtgt/" + realm, "tgs"}, {spn, "svc-secret"}} {
+			if _, err := k.addPrincipal(realm, p.n, p.pw, allEt); err != nil {
+				return err
+			}
+		}
+		addr, err := k.listen()
+		if err != nil {
+			return err
+		}
+		conf := simConf(realm, map[string][]string{realm: {addr}}, map[string]string{"default_tkt_enctypes": etypeNames[et], "default_tgs_enctypes": etypeNames[et],
+			"permitted_enctypes": etypeNames[et], "allow_weak_crypto": "true", "udp_preference_limit": "1", "rdns": "false", "dns_canonicalize_hostname": "false"},
+			map[string]string{".mitr.test": realm})
+		cf := fmt.Sprintf("%s/krb5_p%d.conf", dir, et)
+		if err := os.WriteFile(cf, []byte(conf), 0600); err != nil {
+			return err
+		}
+		run := func(user, pw string) (int, int, string) {
+			cmd := exec.Command(ref)
+			cmd.Env = append(os.Environ(), "KRB5_CONFIG="+cf, "KRB5RCACHETYPE=none")
+			cmd.Stdin = strings.NewReader(fmt.Sprintf("client %s@%s %s %s@%s\n", user, realm, pw, spn, realm))
+			ob, rerr := cmd.Output()
+			var mo struct {
+				RC    int    `json:"rc"`
+				Stage int    `json:"stage"`
+				Msg   string `json:"msg"`
+			}
+			sc := bufio.NewScanner(strings.NewReader(string(ob)))
+			if rerr != nil || !sc.Scan() || json.Unmarshal(sc.Bytes(), &mo) != nil {
+				return 0, -1, fmt.Sprint(rerr)
+			}
+			return mo.Stage, mo.RC, mo.Msg
+		}
+		for _, c := range cases {
+			for _, kind := range []string{"AS", "TGS"} {
+				n++
+				user, pw := fmt.Sprintf("mitp%d", n), fmt.Sprintf("pw-%d-Zz", n)
+				if _, err := k.addPrincipal(realm, user, pw, []int32{et}); err != nil {
+					return err
+				}
+				setupOK := true
+				if c.P["nonce"] == "earlier" {
+					// an unperturbed exchange first, whose reply of that kind the KDC will send again
+					if st, _, _ := run(user, pw); st != 7 {
+						setupOK = false
+					}
+				}
+				k.mu.Lock()
+				k.pert = nil
+				if len(c.Devs) == 1 {
+					// every reply of that kind during this run is perturbed: MIT's client asks again when a TGS reply is unusable
+					k.pert = &perturbation{Kind: kind, Field: c.Devs[0][0], Value: c.Devs[0][1], once: false}
+				}
+				nreq0 := len(k.requests)
+				k.mu.Unlock()
+				st, rc, msg := run(user, pw)
+				k.mu.Lock()
+				consumed := false
+				for _, q := range k.requests[nreq0:] {
+					if q.Kind == kind {
+						consumed = true // a request of that kind arrived (and was answered with the perturbed reply)
+					}
+				}
+				k.pert = nil
+				k.mu.Unlock()
+				tw.emit(map[string]interface{}{"ev": "mitreply", "kind": kind, "reqAddrs": "none", "et": et, "p": c.P, "devs": c.Devs, "mitStage": st, "mitRC": rc, "mitMsg": msg,
+					"setupOK": setupOK, "perturbationApplied": consumed || len(c.Devs) == 0})
+			}
+		}
+		k.close()
 	}
 	return nil
 }
